@@ -211,13 +211,14 @@ class Src:
         """logical lines and block structure: returns (lines, parents) where lines = list of
         (first_tok_index, block_id, line_start_offset) and parents[block_id] = parent id (-1 root)"""
         lines, parents = [], [-1]
+        self.block_header = {0: None}      # block id -> index (into lines) of the logical line that opens it
         stack = [0]
         bol = True
-        depth = 0
         for i, (ty, s, so, eo) in enumerate(self.toks):
             if ty == T.INDENT:
                 parents.append(stack[-1])
                 stack.append(len(parents) - 1)
+                self.block_header[len(parents) - 1] = len(lines) - 1 if lines else None
             elif ty == T.DEDENT:
                 stack.pop()
             elif ty == T.NEWLINE:
@@ -258,6 +259,53 @@ def domain_problem(S):
         if p >= 0 and p in ind and not (s.startswith(ind[p]) and len(s) > len(ind[p])):
             return "inconsistent-indent"
     return None
+
+
+def softkw_shape(text):
+    """Known-finding shape (root cause shared with C01, soft_keywords.rs): a logical line that starts with the
+    NAME `match` / `case` used as an ordinary identifier and has a later top-level colon that the transformer's
+    heuristic takes for the colon of a match/case statement.  The parser rejects such a line; putting the name
+    in parentheses (a layout-only rewrite) makes it accept."""
+    try:
+        S = Src(normalise(text))
+        tree = ast.parse(normalise(text))
+    except (Unsupported, SyntaxError, ValueError, RecursionError):
+        return False
+    match_rows = {n.lineno for n in ast.walk(tree) if isinstance(n, ast.Match)}
+    lines, parents = S.blocks()
+    row_of = lambda ti: bisect.bisect_right(S.ls, S.toks[ti][2])
+    genuine = {}
+    for k, (ti, b, L) in enumerate(lines):
+        ty, s0 = S.toks[ti][0], S.toks[ti][1]
+        if ty != T.NAME or s0 not in ("match", "case"):
+            continue
+        if s0 == "match" and row_of(ti) in match_rows:
+            genuine[k] = True
+            continue
+        if s0 == "case":
+            h = S.block_header.get(b)
+            if h is not None and genuine.get(h):
+                continue
+        # the heuristic of soft_keywords.rs on this logical line
+        nesting, first, seen_lambda = 0, True, False
+        for (ty2, s2, so, eo) in S.toks[ti + 1:]:
+            if ty2 == T.NEWLINE or ty2 == T.ENDMARKER:
+                break
+            if ty2 in (T.NL, T.COMMENT):
+                continue
+            if ty2 == T.OP and s2 in "([{":
+                nesting += 1
+            elif ty2 == T.OP and s2 in ")]}":
+                nesting -= 1
+            elif ty2 == T.OP and s2 == ":" and nesting == 0:
+                if seen_lambda:
+                    seen_lambda = False
+                elif not first:
+                    return True
+            elif ty2 == T.NAME and s2 == "lambda" and nesting == 0:
+                seen_lambda = True
+            first = False
+    return False
 
 
 def apply_edits(text, edits):
@@ -504,6 +552,12 @@ def _paren_sites(text, S, mode):
             lines_b[lineno] = text[L:end].encode("utf-8")
         return L + len(lines_b[lineno][:col].decode("utf-8", "replace"))
     sites = []
+    forbidden = set()
+    for n in ast.walk(tree):
+        if isinstance(n, ast.NamedExpr):
+            forbidden.add(id(n.target))          # `(x) := 1` is not Python
+        elif isinstance(n, ast.AnnAssign) and isinstance(n.target, (ast.Attribute, ast.Subscript)):
+            forbidden.add(id(n.target.value))    # `(x).y: int` is rejected by CPython's grammar
 
     def visit(node, in_pattern):
         for child in ast.iter_child_nodes(node):
@@ -518,7 +572,7 @@ def _paren_sites(text, S, mode):
                 visit(child, True)
                 continue
             if isinstance(child, ast.expr):
-                ok = not in_pattern and not isinstance(child, (ast.Starred, ast.Slice))
+                ok = not in_pattern and not isinstance(child, (ast.Starred, ast.Slice)) and id(child) not in forbidden
                 if isinstance(child, ast.Tuple) and any(isinstance(e, ast.Slice) for e in child.elts):
                     ok = False
                 if ok:
@@ -655,6 +709,9 @@ def usable_original(text, stats, mode="exec"):
     pb = domain_problem(S)
     if pb:
         stats["skipped:" + pb] = stats.get("skipped:" + pb, 0) + 1
+        return None
+    if mode == "exec" and re.search(r"^[ \t\x0c]*(match|case)\b", text, re.M) and softkw_shape(text):
+        stats["skipped:known-softkw-shape"] = stats.get("skipped:known-softkw-shape", 0) + 1
         return None
     return sig
 
